@@ -39,6 +39,10 @@ FIELD_TYPES = {
     ('pjrpc.common.v20:BatchRequest', '_requests'): 'list[=pjrpc.common.v20:Request]',
     ('pjrpc.server.dispatcher:AsyncDispatcher', '_concurrent_batch'): 'bool',
     ('pjrpc.client.client:BaseAbstractClient', 'id_gen_impl'): '=UserIdGen',
+    ('pjrpc.server.specs.openapi:OpenAPI', '_schema_extractors'): 'list[=UserSchemaExtractor]',
+    ('pjrpc.server.specs.openrpc:OpenRPC', '_schema_extractor'): '=UserSchemaExtractor',
+    ('pjrpc.server.specs.openapi:OpenAPI', '_error_http_status_map'): '=dict',
+    ('pjrpc.server.dispatcher:Method', 'method'): '=UserMethod',
     ('builtins:ExtHttpRequest', 'mimetype'): 'str',
     ('builtins:ExtHttpRequest', 'content_type'): 'opt:str',
     ('builtins:ExtHttpRequest', 'is_json'): 'bool',
@@ -52,6 +56,12 @@ FIELD_TYPES = {
 
 # methods of abstract user objects (C19: tracers do not raise)
 ORACLE_METHODS = {
+    # schema extractors are user-extensible: whatever class implements them, the per-method hooks return UNSET or a
+    # list (of error classes) / a string and have no effect the library can observe (A-user)
+    'UserSchemaExtractor': {'extract_errors': {'returns': 'any', 'raises': (), 'returned_invariant': 'spec.specs:errors_result_ok'},
+                            'extract_summary': {'returns': 'any', 'raises': ()},
+                            'extract_description': {'returns': 'any', 'raises': ()},
+                            'extract_deprecation_status': {'returns': 'any', 'raises': ()}},
     # HTTP request objects of the web frameworks: reading the body as text returns a str or fails to decode
     'ExtHttpRequest': {'get_data': {'returns': 'str', 'raises': ('UnicodeDecodeError',)},
                        'text': {'returns': 'str', 'raises': ('UnicodeDecodeError',)}},
